@@ -71,7 +71,7 @@ def is_not_html(text, headers=None, check_options='normal'):
         - `ignore` doesn’t do any checking at all.
     """
     if headers and (check_options == 'normal' or check_options == 'nosniff'):
-        content_type = headers.get('Content-Type', '').split(';', 1)[0].strip()
+        content_type = headers.get('Content-Type', '').split(';', 1)[0].strip().lower()
         if content_type and VALID_CONTENT_TYPE_PATTERN.match(content_type):
             if content_type in ACCEPTABLE_CONTENT_TYPES:
                 return False
